@@ -14,6 +14,7 @@ import (
 	"github.com/postalsys/muti-metroo/internal/protocol"
 	"github.com/postalsys/muti-metroo/internal/recovery"
 	"github.com/postalsys/muti-metroo/internal/transport"
+	"github.com/postalsys/muti-metroo/internal/verifhook"
 )
 
 // PeerInfo contains information about a configured peer.
@@ -301,6 +302,7 @@ func (m *Manager) readLoop(conn *Connection) {
 		}
 
 		conn.updateActivity()
+		verifhook.Point("peer.frame.read", conn.LocalID, conn.RemoteID, frame)
 
 		// Handle control frames internally
 		switch frame.Type {
